@@ -126,31 +126,48 @@ def high_bytes(ctx):
     ctx.count('high_byte_evaluations', n)
 
 
+MIXED_PATTERNS = [('a', ()), ('*', ()), ('a/b', ()), ('d/a', ()), ('[ab]', ()), ('**/a', ('GLOBSTAR',)), ('@(a)', ('EXTMATCH',)),
+                  ('a|b', ('SPLIT',)), ('{a,b}', ('BRACE',)), ('!a', ('NEGATE',)), ('!a', ('NEGATE', 'NEGATEALL')), ('*|!a', ('NEGATE', 'SPLIT')),
+                  ('.', ()), ('d/', ()), ('?', ('DOTMATCH',)), ('A', ('IGNORECASE',)), ('a', ('FORCEWIN',)), ('\\a', ()), ('[[:alpha:]]', ())]
+
+
 def mixed_types(ctx, root):
     n = 0
-    cases = [
-        ('fnmatch(str name, bytes pattern)', lambda: F.fnmatch('a', b'a')),
-        ('fnmatch(bytes name, str pattern)', lambda: F.fnmatch(b'a', 'a')),
-        ('fnmatch(str name, bytes pattern *)', lambda: F.fnmatch('a', b'*')),
-        ('filter(str names, bytes pattern)', lambda: F.filter(['a', 'b'], b'a')),
-        ('filter(bytes names, str pattern)', lambda: F.filter([b'a'], '*')),
-        ('compile(bytes).match(str)', lambda: F.compile(b'*').match('a')),
-        ('globmatch(str, bytes)', lambda: G.globmatch('a', b'*')),
-        ('globmatch(bytes, str)', lambda: G.globmatch(b'a', '*')),
-        ('globfilter(str, bytes)', lambda: G.globfilter(['a'], b'*')),
-        ('globmatch REALPATH (str name, bytes pattern)', lambda: G.globmatch('a', b'*', flags=G.REALPATH, root_dir=root)),
-        ('globmatch REALPATH (bytes name, str root)', lambda: G.globmatch(b'a', b'*', flags=G.REALPATH, root_dir=root)),
-        ('globmatch REALPATH (str name, bytes root)', lambda: G.globmatch('a', '*', flags=G.REALPATH, root_dir=os.fsencode(root))),
-        ('glob(bytes pattern, str root)', lambda: G.glob(b'*', root_dir=root)),
-        ('glob(str pattern, bytes root)', lambda: G.glob('*', root_dir=os.fsencode(root))),
-        ('iglob(bytes pattern, str root)', lambda: list(G.iglob(b'*', root_dir=root))),
-    ]
-    for what, fn in cases:
-        r = outcome(fn)
-        n += 1
-        ctx.evals()
-        if r != ('raised', 'TypeError'):
-            ctx.disagree(f'mixed str/bytes arguments do not raise TypeError: {what}', {'call': what, 'observed': repr(r)[:200]})
+    broot = os.fsencode(root)
+    for p, fnames in MIXED_PATTERNS:
+        bp = p.encode('ascii')
+        ff = flags_of([x for x in fnames if x != 'GLOBSTAR'])
+        gf = flags_of(list(fnames))
+        cases = [
+            ('fnmatch(str name, bytes pattern)', lambda: F.fnmatch('a', bp, flags=ff)),
+            ('fnmatch(bytes name, str pattern)', lambda: F.fnmatch(b'a', p, flags=ff)),
+            ('filter(str names, bytes pattern)', lambda: F.filter(['a', 'b'], bp, flags=ff)),
+            ('filter(bytes names, str pattern)', lambda: F.filter([b'a'], p, flags=ff)),
+            ('compile(bytes).match(str)', lambda: F.compile(bp, flags=ff).match('a')),
+            ('compile(str).filter(bytes)', lambda: F.compile(p, flags=ff).filter([b'a', b'b'])),
+            ('globmatch(str, bytes)', lambda: G.globmatch('a', bp, flags=gf)),
+            ('globmatch(bytes, str)', lambda: G.globmatch(b'a', p, flags=gf)),
+            ('globfilter(str, bytes)', lambda: G.globfilter(['a'], bp, flags=gf)),
+            ('glob.compile(str).match(bytes)', lambda: G.compile(p, flags=gf).match(b'd/a')),
+            ('globmatch REALPATH (str name, bytes pattern)', lambda: G.globmatch('a', bp, flags=gf | G.REALPATH, root_dir=root)),
+            ('globmatch REALPATH (bytes name and pattern, str root)', lambda: G.globmatch(b'a', bp, flags=gf | G.REALPATH, root_dir=root)),
+            ('globmatch REALPATH (str name and pattern, bytes root)', lambda: G.globmatch('a', p, flags=gf | G.REALPATH, root_dir=broot)),
+            ('globfilter REALPATH (str names, bytes pattern and root)', lambda: G.globfilter(['a', 'd'], bp, flags=gf | G.REALPATH, root_dir=broot)),
+            ('glob(bytes pattern, str root)', lambda: G.glob(bp, flags=gf, root_dir=root)),
+            ('glob(str pattern, bytes root)', lambda: G.glob(p, flags=gf, root_dir=broot)),
+            ('iglob(bytes pattern, str root)', lambda: list(G.iglob(bp, flags=gf, root_dir=root))),
+        ]
+        only_exclusions = 'NEGATE' in fnames and 'NEGATEALL' not in fnames and p.startswith('!') and '|' not in p
+        for what, fn in cases:
+            r = outcome(fn)
+            n += 1
+            ctx.evals()
+            if r != ('raised', 'TypeError'):
+                fid = None
+                if only_exclusions and r in (False, []):
+                    fid = 'KF-MIXED-TYPE-EXCLUSION-ONLY'
+                ctx.disagree(f'mixed str/bytes arguments do not raise TypeError: {what}',
+                             {'call': what, 'pattern': p, 'flags': list(fnames), 'observed': repr(r)[:200], 'mode': 'mixed-types'}, fid)
     # WcMatch routes comparison errors to on_error: it must at least not return files
     for what, fn in (('WcMatch(str root, bytes pattern)', lambda: WM.WcMatch(root, b'*').match()),
                      ('WcMatch(bytes root, str pattern)', lambda: WM.WcMatch(os.fsencode(root), '*').match())):
